@@ -75,6 +75,7 @@ fn flow(cfg: &Cfg, rng: &mut Rng, c2s: &[usize], s2c: &[usize], units: &mut Vec<
     let mut server = real::server_codec(cfg, &ssh).map_err(|e| e.to_string())?;
     let mut rs = RefServer::new(cfg, NOW, ServerOpts { strict_limits: false, ..Default::default() });
     refimpl::unit_log_start();
+    refimpl::diag_start();
     let mut request_head: Vec<u8> = Vec::new();
     let mut sbuf = BytesMut::new();
     let mut got_item = false;
@@ -169,7 +170,24 @@ fn flow(cfg: &Cfg, rng: &mut Rng, c2s: &[usize], s2c: &[usize], units: &mut Vec<
         }
     }
     units.extend(refimpl::unit_log_take());
+    let notes = refimpl::diag_take();
+    if !notes.is_empty() {
+        DIAG_NOTES.with(|d| d.borrow_mut().extend(notes));
+    }
     Ok(())
+}
+
+thread_local! {
+    /// what the reference decoders' diagnostic mode found (units that only open under another key / counter)
+    static DIAG_NOTES: std::cell::RefCell<Vec<String>> = const { std::cell::RefCell::new(Vec::new()) };
+}
+
+fn drain_diag(rep: &mut Report) {
+    let notes: Vec<String> = DIAG_NOTES.with(|d| std::mem::take(&mut *d.borrow_mut()));
+    if !notes.is_empty() {
+        rep.mon("units_relocated_by_diagnosis", notes.len() as u64);
+        rep.note(format!("diagnosis: {}", notes[0]));
+    }
 }
 
 fn check_units(rep: &mut Report, what: &str, proto: &str, units: Vec<Unit>, set: &mut UnitSet, ctx: serde_json::Value) {
@@ -205,6 +223,7 @@ fn sessions_case(seed: u64, i: u64, rep: &mut Report, fresh_out: &std::sync::Mut
                 rep.mon("sessions_observed", 1);
                 rep.mon("aead_units_recorded", units.len() as u64);
                 check_units(rep, "tcp-sessions", &proto.name(), units, &mut set, json!({"seed": seed, "index": i, "session": s, "cfg": cfg.describe()}));
+                drain_diag(rep);
             }
             Err(e) => rep.inconclusive(format!("flow failed: {}", crate::panicmon::normalise(&e))),
         }
@@ -236,6 +255,7 @@ fn long_session(seed: u64, proto: Proto, rep: &mut Report) {
             rep.mon("aead_units_recorded", units.len() as u64);
             rep.mon("long_session_chunks", chunks as u64);
             check_units(rep, "long-session", &proto.name(), units, &mut set, json!({"seed": seed, "chunks": chunks}));
+            drain_diag(rep);
             rep.case(&("long", proto.name()), true);
         }
         Err(e) => rep.inconclusive(format!("long session failed: {}", crate::panicmon::normalise(&e))),
